@@ -156,13 +156,13 @@ func isNearTie(x ref.X, e int) bool {
 func fullCoef(t *rapid.T) *big.Int {
 	lowest := new(big.Int).Add(ref.Cmax, ref.One)
 	lowest.Quo(lowest, ref.Ten) // smallest c with 10c > Cmax
-	switch rapid.IntRange(0, 7).Draw(t, "fullKind") {
+	switch ir(t, 0, 7, "fullKind") {
 	case 0:
-		return new(big.Int).Sub(ref.Cmax, bi(int64(rapid.IntRange(0, 2).Draw(t, "o"))))
+		return new(big.Int).Sub(ref.Cmax, bi(int64(ir(t, 0, 2, "o"))))
 	case 1:
-		return new(big.Int).Add(lowest, bi(int64(rapid.IntRange(0, 2).Draw(t, "o"))))
+		return new(big.Int).Add(lowest, bi(int64(ir(t, 0, 2, "o"))))
 	case 2:
-		return new(big.Int).Add(ref.Pow10(34), bi(int64(rapid.IntRange(-2, 2).Draw(t, "o"))))
+		return new(big.Int).Add(ref.Pow10(34), bi(int64(ir(t, -2, 2, "o"))))
 	case 3:
 		c := genDigits(t, 35)
 		if c.Cmp(ref.Cmax) > 0 {
@@ -179,35 +179,35 @@ func fullCoef(t *rapid.T) *big.Int {
 
 // genAddPair draws operand pairs for add/sub (see DESIGN §4 "pair generators").
 func genAddPair(t *rapid.T) (D, D) {
-	switch rapid.IntRange(0, 9).Draw(t, "pairKind") {
+	switch ir(t, 0, 9, "pairKind") {
 	case 0:
 		return genFinite(t), genFinite(t)
 	case 1, 2:
 		// exponent gap 0..45 in either direction, all alignment arms
 		x := genFiniteNZ(t)
 		nx := x.Num()
-		gap := rapid.IntRange(-45, 45).Draw(t, "gap")
+		gap := ir(t, -45, 45, "gap")
 		return x, DFin(genSign(t), genCoef(t), clampExp(nx.Exp+gap))
 	case 3, 4, 5:
 		// tie / near-tie constructor
 		cr := fullCoef(t)
-		er := rapid.IntRange(ref.Emin+1, ref.Emax).Draw(t, "er")
-		if rapid.IntRange(0, 3).Draw(t, "erEdge") == 0 {
-			er = ref.Emax - rapid.IntRange(0, 2).Draw(t, "erTop")
+		er := ir(t, ref.Emin+1, ref.Emax, "er")
+		if ir(t, 0, 3, "erEdge") == 0 {
+			er = ref.Emax - ir(t, 0, 2, "erTop")
 		}
-		k := rapid.IntRange(1, 33).Draw(t, "k")
+		k := ir(t, 1, 33, "k")
 		if er-k < ref.Emin {
 			k = er - ref.Emin
 		}
 		var tt *big.Int
-		switch rapid.IntRange(0, 4).Draw(t, "tKind") {
+		switch ir(t, 0, 4, "tKind") {
 		case 0, 1:
 			tt = new(big.Int)
 		case 2:
-			tt = bi(int64(rapid.IntRange(-3, 3).Draw(t, "tSmall")))
+			tt = bi(int64(ir(t, -3, 3, "tSmall")))
 		default:
 			lim := new(big.Int).Mul(big5, ref.Pow10(k-1))
-			v := new(big.Int).SetUint64(rapid.Uint64().Draw(t, "tRand"))
+			v := new(big.Int).SetUint64(u64(t, "tRand"))
 			v.Mod(v, lim)
 			if rapid.Bool().Draw(t, "tNeg") {
 				v.Neg(v)
@@ -219,7 +219,7 @@ func genAddPair(t *rapid.T) (D, D) {
 		S.Add(S, new(big.Int).Mul(big5, ref.Pow10(k-1)))
 		S.Add(S, tt)
 		// x = (cr - a) * 10^er, a small (either sign)
-		aDigits := rapid.IntRange(0, 34-k).Draw(t, "aDigits")
+		aDigits := ir(t, 0, 34-k, "aDigits")
 		a := new(big.Int)
 		if aDigits > 0 {
 			a = genDigits(t, aDigits)
@@ -256,7 +256,7 @@ func genAddPair(t *rapid.T) (D, D) {
 		x := genFiniteNZ(t)
 		y := genCohortMember(t, x)
 		ny := y.Num()
-		c := new(big.Int).Add(ny.Coef, bi(int64(rapid.IntRange(-2, 2).Draw(t, "du"))))
+		c := new(big.Int).Add(ny.Coef, bi(int64(ir(t, -2, 2, "du"))))
 		if c.Sign() < 0 || c.Cmp(ref.Cmax) > 0 {
 			c = ny.Coef
 		}
@@ -267,9 +267,9 @@ func genAddPair(t *rapid.T) (D, D) {
 		nx := x.Num()
 		var gap int
 		if rapid.Bool().Draw(t, "farGap") {
-			gap = rapid.IntRange(30, 80).Draw(t, "gap")
+			gap = ir(t, 30, 80, "gap")
 		} else {
-			gap = rapid.IntRange(46, 12287).Draw(t, "gap")
+			gap = ir(t, 46, 12287, "gap")
 		}
 		e2 := nx.Exp - gap
 		if e2 < ref.Emin {
@@ -291,9 +291,9 @@ func genAddPair(t *rapid.T) (D, D) {
 		return genFinite(t), genZero(t)
 	}
 	// result near the top of the range (overflow edge)
-	x := DFin(genSign(t), fullCoef(t), ref.Emax-rapid.IntRange(0, 1).Draw(t, "top"))
+	x := DFin(genSign(t), fullCoef(t), ref.Emax-ir(t, 0, 1, "top"))
 	nx := x.Num()
-	y := DFin(nx.Neg != (rapid.IntRange(0, 3).Draw(t, "opp") == 0), genCoef(t), ref.Emax-rapid.IntRange(0, 40).Draw(t, "ygap"))
+	y := DFin(nx.Neg != (ir(t, 0, 3, "opp") == 0), genCoef(t), ref.Emax-ir(t, 0, 40, "ygap"))
 	return x, y
 }
 
